@@ -8,6 +8,8 @@
    Lold <keyspec> | Uold <keyspec>      step of the keyring of before commit 48f9d25 (blanks ignored in every identifier); the answer
                                         evaluates the probes with that membership test / lookup (regression demonstration)
    unspaced <alias>                     PGPKeyring._unspaced
+   LoldK <keyspec>                      load through the _add_key of before commit 7e98898 (subkeys visited only when the key was new)
+   loadres <keyspec>                    what load() returns for this key: its fingerprint and those of its subkeys
    msg <issuer> ...                     with keyring.key(message)
    aliases <label>                      aliases_of
    The sort used by _sort_alias is (created, is_public) ascending; when two distinct keys tie the order Python's
@@ -78,6 +80,8 @@ let () = run_table [
   "Lrepo", (function [k] -> st := add_key_with (add_alias_repo sort_fn) !st (parse_key k); observe () | _ -> failwith "args");
   "Lold", (function [k] -> st := step_old sort_fn !st (Load (parse_key k)); observe_old () | _ -> failwith "args");
   "Uold", (function [k] -> st := step_old sort_fn !st (Unload (parse_key k)); observe_old () | _ -> failwith "args");
+  "LoldK", (function [k] -> st := step_old_addkey sort_fn !st (Load (parse_key k)); observe () | _ -> failwith "args");
+  "loadres", (function [k] -> String.concat "," (List.sort_uniq compare (List.map hex_of_bytes (load_result (parse_key k)))) | _ -> failwith "args");
   "unspaced", (function [a] -> hex_of_bytes (unspaced (bytes_of_hex a)) | _ -> failwith "args");
   "msg", (fun l -> match get_key_issuers !st (List.map bytes_of_hex l) with
       | Some i -> string_of_int (int_of_z i.kid) | None -> "-");
